@@ -334,3 +334,38 @@ PROPS["C16"] = Prop(
     oracle_tokens=["ORACLE_THREAD_RESULT_DIFFERS_FROM_SERIAL"],
     case_timeout=900,
 )
+
+import subprocess as _sp
+
+
+def _llvm_flags():
+    try:
+        cx = _sp.run("llvm-config --cxxflags", shell=True, capture_output=True, text=True).stdout.strip()
+        ld = _sp.run("llvm-config --ldflags --system-libs --libs support core orcjit native irreader", shell=True,
+                     capture_output=True, text=True).stdout.strip().replace("\n", " ")
+        import re as _re
+        cx = _re.sub(r"-std=\S+|-fno-exceptions|-fno-rtti", "", cx)
+        return (cx, ld)
+    except Exception:
+        return ("", "")
+
+
+PROPS["C18"] = Prop(
+    "C18",
+    family_driver={f: ("drv_jit", "plain") for f in ("jitforcing", "jitjacobian", "jitlu", "jitsolver")},
+    model_families={"jitforcing", "jitjacobian", "jitlu", "jitsolver"},
+    generate=lambda rng, tier: G.gen_jit(rng, tier),
+    rule="JitProcessSet forcing and Jacobian functions on random mechanisms (as C01/C02) for L = 1..4 and 1..L cells; "
+         "JitLuDecompositionDoolittle and JitLinearSolver on random patterns n <= 6 with A = L0*U0 (exact in binary64) for "
+         "L = 1..4 and block counts below, at and above L; JitSolverBuilder solvers on random mechanisms, five parameter "
+         "sets, cell counts below, at and above L: every JIT output is compared exactly with the model of the generated "
+         "program and bit for bit with the CPU class on the same input; a cell count the JIT cannot serve must raise "
+         "MicmJitErrc::InvalidMatrix",
+    trusted=COMMON_TRUST + ["LLVM 14 (IR semantics, optimiser, ORC JIT, x86-64 code generator) is not modelled",
+                            "translator tools/errcodes2coq.py for the error code table"],
+    translators=(errcodes2coq.generate,),
+    extra_vo=("gen/ErrCodes.v", "JitModel.v", "JitProofs.v"),
+    driver_flags={("drv_jit", "plain"): _llvm_flags()},
+    oracle_tokens=["ORACLE_JIT_"],
+    case_timeout=900,
+)
